@@ -66,6 +66,49 @@ CLAIMED = {
             "wrapper edges on copies, pop edges for every (final) state over the alphabet including the new bottom "
             "marker, start edge pushes [start symbol, marker], set_valid strictly before is_valid_and_get (not in a "
             "common loop), to_pda's two move kinds. Language equality is not decided."),
+    "C05": ("exception-escape + interprocedural guard-dominance on token-list subscripts + exhaustiveness / writer-reader "
+            "agreement of node classes and symbol tables + abstract path enumeration of the Thompson cases + fresh names",
+            "Static necessary conditions: only MisformedRegexError is raised, token-list subscripts are length-guarded, "
+            "reader / dispatcher / printer are exhaustive and agree, combinators build the right head over [self, "
+            "other], every Thompson case realises exactly its son sequences between s_from and s_to. The precedence "
+            "rewriter and the language of to_cfg are not decided."),
+    "C07": ("must-pass-through (re.compile gate) + constant-folded table agreement",
+            "Narrow claim: rejected patterns are rejected (re.compile gate before any rewriting, uncaught) and the "
+            "escape tables cover the Regex operator characters. The matching equivalence itself is explicitly not "
+            "decided."),
+    "C14": ("exception discipline with may-type attribute checks + dependence analysis of the table fill + re-queue "
+            "pattern of the fixpoints",
+            "Static necessary conditions: only NotParsableException, no attribute read on the string sentinel, guarded "
+            "look-ahead, .get lookups, FIRST fill over all productions, accumulating cells, verdict reads every cell, "
+            "re-queue on growth. Equality with the textbook FIRST/FOLLOW sets is not decided."),
+    "C15": ("ownership analysis of parse trees in the Earley steps + commit-on-success dominance + dependence analysis of "
+            "CYK nodes + documented exception classes",
+            "Static necessary conditions: chart states never share a mutable tree, children assigned only after a "
+            "successful expansion, CYK nodes carry both back-pointers, documented refusal exceptions. The derivation "
+            "listings are not decided."),
+    "C16": ("role-flow dependence analysis of the transducer constructions + forbidden-flow rule + pop-time marking "
+            "pattern + fresh-name totality",
+            "Static necessary conditions: star has the loop-back edge and no skip edge, union / concatenate take the "
+            "right extremities and edges of both operands with a silent bridge, translate has both move kinds, yields "
+            "only consumed+final, marks at pop; to_fst distinguishes epsilon edges; renaming total. Relation equality "
+            "is not decided."),
+    "C17": ("configuration-forwarding analysis + literal-start-symbol rule + option exhaustiveness + permutation "
+            "qualifier + sibling agreement of __eq__",
+            "Static necessary conditions: start variable and ordering option forwarded to derived grammars, no "
+            "hard-coded `S`, options 1..8 handled, orderings return permutations, __eq__ siblings read accessors "
+            "consistently, the marking loop dispatches on both rule kinds and answers `empty` after convergence. The "
+            "value of the fixpoint is not decided."),
+    "C18": ("ownership (unify on copies) + iterator-invalidation rule + DEREF typestate + structural coverage of copy / "
+            "subsumes / unify + fresh dummy head",
+            "Static necessary conditions: destructive unification only on fresh copies, no insertion into the chart "
+            "index being iterated, reads through dereferenced nodes, memoised copy, recursion over all features. "
+            "glb-ness and Earley completeness are not decided."),
+    "C20": ("writer/reader agreement of constants + predicate-table evaluation of the text classifier + dependence "
+            "analysis of from_ebnf + fresh reserved node names",
+            "Static necessary conditions: graph attributes / separators / json fields / epsilon spelling / reserved "
+            "names agree between to_networkx and from_networkx, text markers and slices agree and the reader's "
+            "classifier maps every written case back to its class, one minimised box per head. Value-level round-trip "
+            "equality is not decided."),
     "C19": ("effects-and-ownership analysis (mod/alias dataflow over a type-resolved call graph) with cache-discipline "
             "rules",
             "Static analysis over all paths of every public non-mutator method (per concrete receiver class, callees "
